@@ -980,6 +980,10 @@ def m_spawn(m, name, args, loc):
     out = _outcome(m, 'spawn', loc, ['ok', 'fails'])
     d = m.note('spawn', name, args, loc, outcome=out, interest=w, child=None,
                handler=m.read(w + (('f', 'handler'),)), cookie=m.read(w + (('f', 'cookie'),)))
+    # what the caller has written into the interest at this moment (R-C19h runs the real spawn helper from that state):
+    # members written one by one, and whether the object lies in zero-filled memory (calloc, memset, `= {0}`)
+    d['pre'] = dict((k[len(w):], v) for k, v in m.mem.items() if len(k) > len(w) and k[:len(w)] == w)
+    d['pre_zero'] = any(is_i(m.mem.get(w[:k]), 0) for k in range(len(w), 0, -1))
     if w in m.reg:
         m.violation('wait interest %s registered twice' % show_loc(w), loc)
     if out == 'fails':
@@ -1290,7 +1294,7 @@ LIST_ENV = {'INIT_IV_LIST_HEAD': _m_list_init, 'iv_list_empty': _m_list_empty, '
             'iv_list_del': _m_benign, 'iv_list_del_init': _m_benign, '__iv_list_steal_elements': _m_benign}
 
 
-def spawn_runs(prog, f, setlocks, settrees):
+def spawn_runs(prog, f, setlocks, settrees, init=None):
     """All executions of f(&interest, fn, cookie), f the function of the wait module a child is spawned through, with fork()
     modelled (returns the new pid in the parent / 0 in the child / fails) against the adversary that matters for `the exit
     of the child is noticed`: from the moment fork() has returned in the parent the child may end, and the reaper (any
@@ -1298,11 +1302,23 @@ def spawn_runs(prog, f, setlocks, settrees):
     finds the interest only if it is in the pid set under the child's pid.  Every moment at which the child exists, is not
     yet findable and the set's lock is not held is recorded as a gap (the lock state only changes at fork-time, at an
     unlock, so these are the moments looked at).  Insertions are logged with the pid the interest holds in memory at
-    that moment (the tree is ordered by it), the tree, and whether the lock is held."""
+    that moment (the tree is ordered by it), the tree, and whether the lock is held.
+
+    `init` is what the caller has written into the interest before the call (location -> value); everything else in the
+    interest is never-written memory (the record comes from malloc).  `exposed` records the first moment at which the
+    reaper can find the interest (it is in the set and the set's lock is not held: the insertion itself when done without
+    the lock, else the first release of the lock after it, else the return): whether the flag word has been written by
+    then and what it holds; `late` lists what the helper does to the flag word after that moment."""
     def scenario(orc):
         r = SpawnRun()
         m = r.m = Machine(prog, orc, (f.file,))
+        m.mem.update(init or {})
         r.outcome, r.fork, r.gaps, r.inserts, r.findable, r.end, r.ret = None, None, [], [], False, 'done', None
+        r.exposed, r.late = None, []
+
+        def expose(loc, how):
+            if r.exposed is None and r.outcome == 'parent' and any(d['mine'] for d in r.inserts):
+                r.exposed = {'loc': loc, 'how': how, 'written': m.covered(WAIT_FLAGS), 'flags': m.read(WAIT_FLAGS), 'logi': len(m.log)}
 
         def locked():
             return any(l in setlocks for l in m.locks)
@@ -1326,12 +1342,16 @@ def spawn_runs(prog, f, setlocks, settrees):
             r.inserts.append(d)
             if d['set'] and r.outcome == 'parent' and d['pid'] == NEW_PID and d['locked']:
                 r.findable = True
+            if mine and not d['locked']:
+                expose(loc, 'inserted into the pid set without the set\'s lock')
             return None
 
         def on_unlock(lk, loc):
             if r.outcome == 'parent' and not r.findable and lk in setlocks and not locked():
                 r.gaps.append({'loc': loc, 'what': 'the lock of the pid set is released after fork() and before the interest is in the set under the child\'s pid',
                                'held': tuple(m.locks)})
+            if lk in setlocks and not locked():
+                expose(loc, 'the set\'s lock is released with the interest in the pid set')
         m.env = {'fork': m_fork, 'iv_avl_tree_insert': m_insert}
         for n in BENIGN_IN_WAIT_MODULE:
             m.env[n] = _m_benign
@@ -1342,6 +1362,55 @@ def spawn_runs(prog, f, setlocks, settrees):
         except PathEnd as pe:
             r.end = pe.why
         r.locked_at_end = locked()
+        expose(r.fork['loc'] if r.fork else None, 'the helper returns with the interest in the pid set')
+        if r.exposed is not None:
+            x = r.exposed
+            for e in m.log[x['logi']:]:
+                t = e.get('target')
+                if e['kind'] == 'store' and t is not None and (t[:len(WAIT_FLAGS)] == WAIT_FLAGS or WAIT_FLAGS[:len(t)] == t):
+                    r.late.append({'loc': e['loc'], 'what': 'stores %s into %s' % (show(e['args'][0]), e['name'])})
+            now = m.read(WAIT_FLAGS)
+            if not r.late and now != x['flags']:
+                r.late.append({'loc': x['loc'], 'what': 'the flag word changes from %s to %s' % (show(x['flags']), show(now))})
+        return r
+    out = []
+    for trail, r in explore(scenario, None):
+        r.trail = trail
+        out.append(r)
+    return out
+
+
+
+# ----------------------------------------------------------------------------
+# the kill helper run on the interest as the spawn helper leaves it (R-C19h)
+# ----------------------------------------------------------------------------
+
+def unwritten_interest(v):
+    """v depends on never-written content of the interest object"""
+    return mentions(v, lambda x: x[0] == 'init' and isinstance(x[1], tuple) and x[1][:len(WAIT_OBJ)] == WAIT_OBJ)
+
+
+def alive_runs(prog, killer, mem, sigs):
+    """All executions of killer(&interest, sig) for each sig in turn on the memory a successful parent path of the spawn
+    helper leaves (locals dropped), the child being alive throughout (no reaper).  Per run: per signal the raw kill()
+    events, how the call ended, and the branches the state did not decide (a flag word nobody wrote is such a branch)."""
+    mem0 = dict((k, v) for k, v in mem.items() if k[0][0] != 'L')
+
+    def scenario(orc):
+        r = HelperRun()
+        m = r.m = Machine(prog, orc, (killer.file,))
+        m.mem = dict(mem0)
+        m.on_kill = lambda d: I(0)
+        r.results = []
+        for sg in sigs:
+            n0 = len(m.log)
+            end, ret = 'done', None
+            try:
+                ret = m.call(killer, [('addr', WAIT_OBJ), I(sg)])
+            except PathEnd as pe:
+                end = pe.why
+            r.results.append({'sig': sg, 'end': end, 'ret': ret, 'kills': [e for e in m.log[n0:] if e['kind'] == 'rawsignal']})
+        r.undecided = list(m.undecided)
         return r
     out = []
     for trail, r in explore(scenario, None):
